@@ -14,6 +14,15 @@ import CookModel.Lemmas.RoundtripInput
 import CookModel.Lemmas.RoundtripDoc
 import CookModel.Lemmas.RoundtripAnalysis
 import CookModel.Lemmas.RoundtripRecipe
+import CookModel.Lemmas.RoundtripSections
+import CookModel.Lemmas.RoundtripDocRecipe
+import CookModel.Lemmas.RoundtripRefs
+import CookModel.Lemmas.InterRefSpec
+import CookModel.Lemmas.RoundtripSectionsRefs
+import CookModel.Lemmas.ClosingStream
+import CookModel.Lemmas.CollectorRefIff
+import CookModel.Lemmas.CollectorShape
+import CookModel.Lemmas.CollectorLast
 /-
   C01  Printing a recipe as Cooklang and parsing it returns that recipe.
 
@@ -974,5 +983,437 @@ theorem C01_well_spelled_marker_partial (cs : CharSpec) (k : TK) (c : Char) (nx 
     spellOK cs k [c] nx = true := rtin_spellOK_single cs k c nx h hk
 
 example : singleKind '@' = some .at ∧ singleKind '{' = some .openBrace ∧ singleKind '%' = some .percent := by decide
+
+/-! ### sections and `>>` metadata through the analysis pass (audit: closes the gap named in `C01_recipe_steps`) -/
+
+/-- Analysis layer for whole documents, for EVERY extension set.  `blocks` is what the parser hands over for a
+    recipe text made of steps (`SBlock.step`: non-empty; plain definitions as in `C01_analysis_simple`;
+    additionally, `SItem.SimpleX`: when INLINE_QUANTITIES is on a text item contains no inline quantity
+    (`find_inline_quantity` finds nothing, e.g. because it has no digit: `C01_text_without_digit`), when
+    ADVANCED_UNITS is on a timer amount is numeric and its unit is a unit of time — both vacuous when the
+    extensions are off), text paragraphs (`SBlock.para`: the texts the parser delivers between
+    `start text` and `end text`; their joined text becomes one `Content::Text` of the current section,
+    nothing when it is empty, and the step counter does not move: `paraContent`), section lines
+    (`SBlock.sect`, named or not) and `>>` metadata entries
+    (`SBlock.entry`) that are plain (`EntryPlain`: not a `[mode]` switch under MODES, not a standard key
+    whose value `check_std_entry` rejects, not `time` / `prep time` / `cook time`).  Then `parse_events`
+    returns a recipe with
+    * the sections `docSecs`: the blocks before the first section line form the unnamed first section
+      (absent when it has no step), every section line opens a section with the trimmed name of the
+      line; the steps of EACH section are numbered 1, 2, …; the index of a component item is the number
+      of components of its kind in ALL steps before it, across sections; a section without name and
+      without content is dropped, a named one without content is kept;
+    * the component tables in document order (across sections);
+    * the metadata map `docMeta`: the entries in document order with trimmed key and outer-trimmed
+      value, a repeated key keeps its position and takes the later value;
+    * exactly ONE diagnostic when there is a `>>` entry — the deprecation warning carrying the span of
+      every entry, in order — and none otherwise; no panic. -/
+theorem C01_analysis_doc {α : Type} [Arith α] (env : Env) (input : Str)
+    (blocks : List (SBlock α)) (hok : ∀ b ∈ blocks, b.OK env) :
+    ∃ c : Col α, parseEvents env input (blocks.flatMap SBlock.events) = ⟨some c, c.diags, none⟩ ∧
+      c.sections = docSecs env [] ⟨none, []⟩ 1 blocks ∧
+      c.ingredients.toList = (ingrsOf (docStepItems blocks)).map (ingrOf env) ∧
+      c.cookware.toList = (cwsOf (docStepItems blocks)).map (cwOf env) ∧
+      c.timers.toList = (timersOf (docStepItems blocks)).map (timerOf env) ∧
+      c.metaMap = docMeta env [] (docEntries blocks) ∧
+      c.diags = deprecation (docSpans (docEntries blocks)) ∧
+      c.inlineQ = #[] ∧ c.frontMatter = none :=
+  rts_parseEvents_doc env input blocks hok
+
+/-- closed form of the INLINE_QUANTITIES side condition: a text without ASCII digit contains no inline
+    quantity (`find_inline_quantity` starts at a digit) -/
+theorem C01_text_without_digit {α : Type} [Arith α] (env : Env) (fuel : Nat) (pre txt : Str)
+    (h : txt.all (fun c => !isAsciiDigitC c) = true) : findInlineQuantity (α := α) env fuel pre txt = none :=
+  rts_no_digit_no_inline env fuel pre txt h
+
+/-- what a plain `>>` entry does to the collector, whatever its state: the entry goes into the map, its
+    span into the list for the deprecation notice; a standard key additionally records its location and,
+    for `servings`, the parsed servings — and nothing else changes (no diagnostic) -/
+theorem C01_metadata_entry {α : Type} [Arith α] (env : Env) (input : Str) (k v : Text) (s : Col α)
+    (h : EntryPlain env k v) : (processEvent env input (.metadata k v) s).2 = entryEffect env k v s :=
+  rts_metadataA_plain env k v s h
+
+/-- The round trip for documents made of steps, section lines and `>>` metadata lines, from the printed
+    characters to the recipe (extends `C01_recipe_steps`; same hypotheses on the syntax layers:
+    `DocItem.ok`, `sepsOK`, `blankLinesOK`, well-spelledness, no front-matter fence; steps made of plain
+    definitions, `DocItem.simple`), for EVERY extension set — so for the canonical parser (no extension) and
+    for the extended parser (all extensions) of the property's quantifier: instead of requiring
+    ADVANCED_UNITS and INLINE_QUANTITIES to be off, `DocItem.extOK` asks, only when the extension is on,
+    that a text run shows no inline quantity (e.g. has no digit, `C01_text_without_digit`) and that a timer
+    amount is numeric with a unit the converter knows as a unit of time.  Metadata lines are plain
+    (`DocItem.plain`: with MODES on the key is not of the form `[…]`; if the key is a standard key the
+    standard check accepts the value and the key is not one of the three time keys).  Then
+    `CooklangParser::parse` returns a recipe, no panic, and
+    * `sections = absDocSecs …`: a function of the abstract document — unnamed leading section when
+      steps come before the first section line, one section per section line named by the line's name
+      (`leafText`: the name as written, inner spacing kept), steps numbered from 1 in each section,
+      component indices running through the whole document (see the example below);
+    * the three component tables as in `C01_recipe_steps`, over all steps of all sections;
+    * `metadata.map = absDocMeta …`: the entries in order, key and value as written (`leafText`), a
+      repeated key overwritten in place;
+    * the diagnostics are exactly: nothing when the document has no `>>` line, otherwise the ONE
+      deprecation warning with one label per `>>` line (the only warning the property's oracle allows).
+    Outside (tested only): front matter as the metadata carrier, the three time keys, mode switches,
+    references and intermediate references. -/
+theorem C01_recipe_doc {α : Type} [Arith α] (env : Env) (pre : List Tok) (doc : List (DocItem × List Tok))
+    (hpre : blankLinesOK pre = true) (hok : ∀ d ∈ doc, d.1.ok env.cs env.ext = true)
+    (hsimple : ∀ d ∈ doc, d.1.simple = true) (hplain : ∀ d ∈ doc, d.1.plain env)
+    (hext : ∀ d ∈ doc, d.1.extOK α env)
+    (hseps : sepsOK (doc.map (·.2)) = true) (hw : WellSpelled env.cs (pre ++ docSpec doc))
+    (hfm : parseFrontmatter env.cs (render (pre ++ docSpec doc)) = none) :
+    ∃ (c : Col α) (spans : List Span),
+      parseRecipe env (render (pre ++ docSpec doc)) = ⟨some c, c.diags, none⟩ ∧
+      c.sections = absDocSecs [] ⟨none, []⟩ 1 (doc.map (·.1)) ∧
+      c.ingredients.toList = ((absDocSegs (doc.map (·.1))).filterMap SegX.ingr?).map absIngr ∧
+      c.cookware.toList = ((absDocSegs (doc.map (·.1))).filterMap SegX.cw?).map absCw ∧
+      c.timers.toList = ((absDocSegs (doc.map (·.1))).filterMap SegX.timer?).map absTimer ∧
+      c.metaMap = absDocMeta [] (doc.map (·.1)) ∧
+      c.diags = deprecation spans ∧ spans.length = ((doc.map (·.1)).filter DocItem.isMeta).length ∧
+      c.inlineQ = #[] ∧ c.frontMatter = none :=
+  rtx_parseRecipe_doc env pre doc hpre hok hsimple hplain hext hseps hw hfm
+
+/-! example: `>> source: grandma`, the first step of `C01_exStepsDoc`, `== Main course == `, its second
+    step, `>> source : book` (the key again).  Two sections: the unnamed one with step 1, `Main course`
+    with its own step 1 whose timer has index 0; the map has one entry with the later value. -/
+def C01_exFullDoc : List (DocItem × List Tok) :=
+  [(.metaLine [tk .word "source".toList] [tk .word "grandma".toList] { c := [tk .ws [' ']] }, [C01_nl, C01_nl]),
+   (.step (C01_exStepsDoc.map (·.1))[0]!, [C01_nl, C01_nl]),
+   (.sectionLine (some [tk .word "Main".toList, tk .ws [' '], tk .word "course".toList]) C01_exSPad, [C01_nl, C01_nl]),
+   (.step (C01_exStepsDoc.map (·.1))[1]!, [C01_nl, C01_nl]),
+   (.metaLine [tk .word "source".toList] [tk .word "book".toList] { a := [tk .ws [' ']], c := [tk .ws [' ']] }, [C01_nl])]
+
+example : (∀ d ∈ C01_exFullDoc, d.1.ok C01_stepsEnv.cs C01_stepsEnv.ext = true) ∧
+    (∀ d ∈ C01_exFullDoc, d.1.simple = true) ∧ sepsOK (C01_exFullDoc.map (·.2)) = true := by decide
+/-- the same document under the extended parser: every extension on, a converter that knows `min` as a unit
+    of time; the text runs have no digit, the timer `~{10%min}` has a numeric amount in a time unit -/
+def C01_fullEnv : Env :=
+  ⟨toyCharSpec, ⟨C01_timerExt.bits ||| Gen.EXT_MODES ||| Gen.EXT_INLINE_QUANTITIES⟩,
+   fun u => if u = "min".toList then some 4 else none, fun _ _ => .ok, fun c => [c], 4⟩
+example : C01_fullEnv.ext.has Gen.EXT_ADVANCED_UNITS = true ∧ C01_fullEnv.ext.has Gen.EXT_INLINE_QUANTITIES = true ∧
+    C01_fullEnv.ext.has Gen.EXT_MODES = true ∧ C01_fullEnv.ext.has Gen.EXT_COMPONENT_MODIFIERS = true := by decide
+example : (∀ d ∈ C01_exFullDoc, d.1.ok C01_fullEnv.cs C01_fullEnv.ext = true) := by decide
+example : ∀ d ∈ C01_exFullDoc, d.1.extOK Rat C01_fullEnv := by
+  intro d hd
+  simp only [C01_exFullDoc, List.mem_cons, List.not_mem_nil, or_false] at hd
+  rcases hd with rfl | rfl | rfl | rfl | rfl <;> try trivial
+  all_goals
+    intro sg hsg
+    simp only [C01_exStepsDoc, List.map_cons, List.map_nil, List.getElem!_cons_zero, List.getElem!_cons_succ,
+      List.mem_cons, List.not_mem_nil, or_false] at hsg
+    rcases hsg with rfl | rfl | rfl | rfl | rfl | rfl | rfl <;>
+      first
+      | trivial
+      | (intro _; exact ⟨by decide, rts_no_digit_no_inline _ _ _ _ (by decide)⟩)
+      | (intro _ q hq; cases hq; exact ⟨by decide, fun u hu => by cases hu; decide⟩)
+example : WellSpelled toyCharSpec (docSpec C01_exFullDoc) := by decide
+example : (parseFrontmatter toyCharSpec (render (docSpec C01_exFullDoc))).isNone = true := by decide
+example : ∀ d ∈ C01_exFullDoc, d.1.extOK Rat C01_stepsEnv := by
+  intro d hd
+  simp only [C01_exFullDoc, List.mem_cons, List.not_mem_nil, or_false] at hd
+  rcases hd with rfl | rfl | rfl | rfl | rfl <;> try trivial
+  all_goals
+    intro sg _
+    cases sg <;> first | trivial | (intro h; exact absurd h (by decide))
+example : (∀ d ∈ C01_exFullDoc, d.1.plain C01_stepsEnv) ∧ (∀ d ∈ C01_exFullDoc, d.1.plain C01_fullEnv) := by
+  have hk : StdKey.ofStr (String.ofList (leafText [tk .word "source".toList])) = some .source := by decide
+  have hp : ∀ (env : Env), env.stdCheck = (fun _ _ => .ok) →
+      ¬ (env.ext.has Gen.EXT_MODES = true ∧ (leafText [tk .word "source".toList]).head? = some '[' ∧
+        (leafText [tk .word "source".toList]).getLast? = some ']') →
+      ∀ v p, (DocItem.metaLine [tk .word "source".toList] v p).plain env := by
+    intro env he hn v p
+    refine ⟨hn, fun sk h => ?_⟩
+    rw [hk] at h
+    cases h
+    exact ⟨by simp [he], by decide⟩
+  constructor <;> intro d hd <;>
+    simp only [C01_exFullDoc, List.mem_cons, List.not_mem_nil, or_false] at hd <;>
+    rcases hd with rfl | rfl | rfl | rfl | rfl <;>
+    first | exact hp _ rfl (by decide) _ _ | trivial
+example : absDocSecs [] ⟨none, []⟩ 1 (C01_exFullDoc.map (·.1)) =
+    [⟨none, [.step ⟨[.text "Fry ".toList, .ingredient 0, .text " with ".toList, .ingredient 1, .text " in ".toList,
+                     .cookware 0, .text ".".toList], 1⟩]⟩,
+     ⟨some "Main course".toList, [.step ⟨[.timer 0, .text " later.".toList], 1⟩]⟩] := by decide
+example : absDocMeta [] (C01_exFullDoc.map (·.1)) = [("source".toList, "book".toList)] := by decide
+example : ((C01_exFullDoc.map (·.1)).filter DocItem.isMeta).length = 2 := by decide
+/-- the conditions on metadata lines are needed: a time key may raise `time-overridden`, `[mode]` under
+    MODES is a switch, not an entry -/
+example : ¬ (DocItem.metaLine [tk .word "time".toList] [tk .int ['5']] {}).plain C01_stepsEnv := by
+  intro h
+  have hk : StdKey.ofStr (String.ofList (leafText [tk .word "time".toList])) = some .time := by decide
+  exact absurd (h.2 _ hk).2 (by decide)
+
+/-! ### references: the resolved relation is determined by the text (audit; composes the C06 theorems) -/
+
+/-- **What `&name` resolves to.**  For every input whose parse returns a recipe and NO error (warnings
+    allowed) — so in particular for every correctly spelled recipe — and every ingredient of the table that
+    carries the reference modifier (`&`, written or inherited through `[duplicate]: ref`):
+    * its relation IS a reference and carries its target kind (ingredient, step or section);
+    * if the target kind is `ingredient` (a regular reference), the target index `t` is smaller than the
+      ingredient's own index `k`, the ingredient at `t` is a definition without the reference modifier whose
+      name equals the referrer's up to case folding, it lists `k` in `referenced_from` exactly once, and NO
+      ingredient strictly between `t` and `k` is such a candidate: `t` is the LAST earlier definition of
+      that name.  These conditions have at most one solution `t`, so the relation the parser returns is the
+      one the printer intended (the last definition of the name printed before the reference).
+    The same holds of cookware.  (Step and section targets: `C06_step_reference_target`,
+    `C06_section_reference_target`.) -/
+theorem C01_references_resolved {α : Type} [Arith α] (env : Env) (input : Str) (c : Col α)
+    (h : (parseRecipe (α := α) env input).output = some c)
+    (hno : ∀ d ∈ (parseRecipe (α := α) env input).diags.toList, d.sev ≠ Sev.error) :
+    (∀ (k : Nat) (ig : Ingredient (ScalableValue α)), c.ingredients[k]? = some ig →
+      ig.modifiers.contains Modifiers.REF = true →
+      ∃ t tg, ig.relation = ⟨.reference t, some tg⟩ ∧
+        (tg = .ingredient →
+          t < k ∧ (∃ d, c.ingredients[t]? = some d ∧ d.modifiers.contains Modifiers.REF = false ∧
+            nameEq env ig.name d.name = true ∧ ∃ rf b, d.relation.relation = .definition rf b ∧ rf.count k = 1) ∧
+          ∀ (j : Nat) (x : Ingredient (ScalableValue α)), t < j → j < k → c.ingredients[j]? = some x →
+            ¬ (x.modifiers.contains Modifiers.REF = false ∧ nameEq env ig.name x.name = true))) ∧
+    (∀ (k : Nat) (cw : Cookware (ScalableValue α)), c.cookware[k]? = some cw →
+      cw.modifiers.contains Modifiers.REF = true →
+      ∃ t, cw.relation = .reference t ∧ t < k ∧
+        (∃ d, c.cookware[t]? = some d ∧ d.modifiers.contains Modifiers.REF = false ∧
+          nameEq env cw.name d.name = true ∧ ∃ rf b, d.relation = .definition rf b ∧ rf.count k = 1) ∧
+        ∀ (j : Nat) (x : Cookware (ScalableValue α)), t < j → j < k → c.cookware[j]? = some x →
+          ¬ (x.modifiers.contains Modifiers.REF = false ∧ nameEq env cw.name x.name = true)) := by
+  have hev := pullEvents_evOK (α := α) env.cs env.ext input
+  have hf := parseEventsLoop_inv env input _ {} c (Inv.init env) hev h
+  have hiff : (∀ (k : Nat) (ig : Ingredient (ScalableValue α)), c.ingredients[k]? = some ig →
+        ig.modifiers.contains Modifiers.REF = true → ig.relation.relation.isReference = true) ∧
+      (∀ (k : Nat) (cw : Cookware (ScalableValue α)), c.cookware[k]? = some cw →
+        cw.modifiers.contains Modifiers.REF = true → cw.relation.isReference = true) := by
+    rcases parseEventsLoop_refInv env input _ {} c (Inv.init env) RefInv.init hev h with ⟨d, hd, hs⟩ | ⟨hI, hC⟩
+    · exact absurd hs (hno d hd)
+    · exact ⟨hI, hC⟩
+  have hlast := parseEventsLoop_last env input _ {} c (Inv.init env) ⟨LastI.empty env, LastC.empty env⟩ hev h
+  have hshape := parseEventsLoop_shape env input _ {} c (Inv.init env) ShapeInv.init hev h
+  refine ⟨fun k ig hk hREF => ?_, fun k cw hk hREF => ?_⟩
+  · have hisref := hiff.1 k ig hk hREF
+    rcases hshape.shape k ig hk with ⟨rf, b, hd⟩ | ⟨t, tg, hr⟩
+    · rw [hd] at hisref; cases hisref
+    · refine ⟨t, tg, hr, fun htg => ?_⟩
+      subst htg
+      obtain ⟨h1, d, h2, h3, h4, rf, b, h5, h6⟩ := hf.itab.backl k ig hk t hr
+      exact ⟨h1, ⟨d, h2, h4, h3, rf, b, h5, h6⟩, fun j x htj hjk hx => hlast.1 k ig hk t hr j x htj hjk hx⟩
+  · have hisref := hiff.2 k cw hk hREF
+    cases hr : cw.relation with
+    | definition rf b => rw [hr] at hisref; cases hisref
+    | reference t =>
+      obtain ⟨h1, d, h2, h3, h4, rf, b, h5, h6⟩ := hf.ctab.backl k cw hk t hr
+      exact ⟨t, rfl, h1, ⟨d, h2, h4, h3, rf, b, h5, h6⟩, fun j x htj hjk hx => hlast.2 k cw hk t hr j x htj hjk hx⟩
+
+/-- the target described by `C01_references_resolved` is unique: two indices that both are "the last earlier
+    non-REF entry of that name before `k`" coincide — so the conditions pin the relation down -/
+theorem C01_reference_target_unique {α : Type} [Arith α] (env : Env) (ings : Array (Ingredient (ScalableValue α)))
+    (name : Str) (k t t' : Nat)
+    (ht : t < k ∧ (∃ d, ings[t]? = some d ∧ d.modifiers.contains Modifiers.REF = false ∧ nameEq env name d.name = true) ∧
+      ∀ j x, t < j → j < k → ings[j]? = some x → ¬ (x.modifiers.contains Modifiers.REF = false ∧ nameEq env name x.name = true))
+    (ht' : t' < k ∧ (∃ d, ings[t']? = some d ∧ d.modifiers.contains Modifiers.REF = false ∧ nameEq env name d.name = true) ∧
+      ∀ j x, t' < j → j < k → ings[j]? = some x → ¬ (x.modifiers.contains Modifiers.REF = false ∧ nameEq env name x.name = true)) :
+    t = t' := by
+  obtain ⟨h1, ⟨d, hd, hd1, hd2⟩, h3⟩ := ht
+  obtain ⟨h1', ⟨d', hd', hd1', hd2'⟩, h3'⟩ := ht'
+  rcases Nat.lt_trichotomy t t' with hlt | heq | hgt
+  · exact absurd ⟨hd1', hd2'⟩ (h3 t' d' hlt h1' hd')
+  · exact heq
+  · exact absurd ⟨hd1, hd2⟩ (h3' t d hgt h1 hd)
+
+/-- **A correctly written reference is resolved and nothing is reported.**  The collector is in the default
+    modes inside a step block; the event is an ingredient `@&name…` (REF, not NEW, no intermediate data)
+    whose name — up to case folding — is that of the last earlier non-REF ingredient, at index `t`
+    (`sameNameIdx … = some t`, cf. `C06_same_name_index_is_last`), which is a definition `defn`; the
+    reference carries no modifier the definition lacks (`refConflict = 0`; HIDDEN, OPT, RECIPE are
+    inherited), no note, and its amount agrees with the definition's in being text or not
+    (`RefChecksQuiet`; ADVANCED_UNITS off, so no unit comparison).  Then the event
+    * appends to the table the ingredient `asReference (ingrOf env li) …`: name, alias, amount as written,
+      modifiers = written ∪ inherited ∪ REF, relation = reference to `t` with target kind `ingredient`;
+    * rewrites the definition at `t` to list the new index at the END of `referenced_from`
+      (`backlinked`), leaving everything else of the table untouched;
+    * appends the item `Ingredient(new index)` to the open step;
+    * and changes nothing else: in particular NO diagnostic and no panic is added (`diags`, `panic` are
+      those of `s`).
+    With `C01_references_resolved` (what any valid result looks like) this is the analysis layer of the
+    round trip for regular ingredient references.  Not covered: cookware references (same code path,
+    `cwResolve`), references under `[duplicate]: ref`, ADVANCED_UNITS unit checks. -/
+theorem C01_reference_event_partial {α : Type} [Arith α] (env : Env) (input : Str) (li : Loc (PIngredient α))
+    (s : Col α) (items : List Item) (t : Nat) (defn : Ingredient (ScalableValue α)) (defLoc : Loc (PIngredient α))
+    (rf : List Nat) (b : Bool) (tg : Option RefTarget)
+    (hd : s.defineMode = .all) (hdup : s.duplicateMode = .new) (hb : s.block = some (.step items))
+    (hinter : li.val.inter = none) (hlock : ∀ q, li.val.quantity = some q → lockOK q.val.value true)
+    (hREF : li.val.modifiers.val.contains Modifiers.REF = true)
+    (hNEW : li.val.modifiers.val.contains Modifiers.NEW = false)
+    (hfound : sameNameIdx env (s.ingredients.toList.map (fun x => (x.name, x.modifiers))) (ingrOf env li).name = some t)
+    (hdefn : s.ingredients[t]? = some defn) (hloc : s.locIngr[t]? = some defLoc)
+    (hrel : defn.relation = ⟨.definition rf b, tg⟩)
+    (hconf : refConflict li.val.modifiers.val
+      ⟨defn.modifiers.bits &&& (Modifiers.HIDDEN ||| Modifiers.OPT ||| Modifiers.RECIPE)⟩ = 0)
+    (hq : RefChecksQuiet env li (ingrOf env li).quantity defn b) :
+    (processEvent env input (.ingredient li) s).2 =
+      { s with
+        locIngr := s.locIngr.push li,
+        ingredients := (s.ingredients.setIfInBounds t (backlinked defn rf s.ingredients.size b tg)).push
+          (asReference (ingrOf env li) defn.modifiers t),
+        block := some (.step (items ++ [.ingredient s.ingredients.size])) } :=
+  rtf_proc_ingredient_ref env input li s items t defn defLoc rf b tg hd hdup hb hinter hlock hREF hNEW hfound hdefn hloc
+    hrel hconf hq
+
+/-! example: `@salt{=1%tsp}` … `@&salt` (the events of `C01_exSalt1` and a reference to it): the hypotheses
+    hold in the state after the definition, and the whole fold returns the reference with the back-link and
+    no diagnostic -/
+def C01_exSaltRef : Loc (PIngredient Rat) :=
+  ⟨⟨⟨⟨Modifiers.REF⟩, ⟨21, 22⟩⟩, none, C01_txt "salt" 22, none, none, none⟩, ⟨20, 26⟩⟩
+def C01_exAfterDef : Col Rat :=
+  { ingredients := #[ingrOf C01_toyEnv C01_exSalt1], locIngr := #[C01_exSalt1], block := some (.step [.ingredient 0]) }
+example : sameNameIdx C01_toyEnv (C01_exAfterDef.ingredients.toList.map (fun x => (x.name, x.modifiers)))
+    (ingrOf C01_toyEnv C01_exSaltRef).name = some 0 := by decide
+example : refConflict C01_exSaltRef.val.modifiers.val
+    ⟨(ingrOf C01_toyEnv C01_exSalt1).modifiers.bits &&& (Modifiers.HIDDEN ||| Modifiers.OPT ||| Modifiers.RECIPE)⟩ = 0 := by
+  decide
+example : RefChecksQuiet C01_toyEnv C01_exSaltRef (ingrOf C01_toyEnv C01_exSaltRef).quantity
+    (ingrOf C01_toyEnv C01_exSalt1) true :=
+  ⟨by decide, rfl, by decide, fun rq dq h => by cases h⟩
+example : (parseEvents C01_toyEnv [] [.start .step, .ingredient C01_exSalt1, .ingredient C01_exSaltRef, .stop .step]).output.map
+      (fun c => (c.ingredients.toList.map (·.relation), c.sections, c.diags.toList)) =
+    some ([⟨.definition [1] true, none⟩, ⟨.reference 0, some .ingredient⟩],
+          [⟨none, [.step ⟨[.ingredient 0, .ingredient 1], 1⟩]⟩], []) := by rfl
+
+/-! ### intermediate-preparation references: the target in closed form -/
+
+/-- **What `&(=k)` / `&(~k)` resolve to.**  `resolve_intermediate_ref` (`interRefTarget`) on the content of
+    the current section (the blocks pushed so far), the number `n` of finished sections and the data of the
+    reference (`val = k`, relative or not, step or section): when it yields a relation then `k ≥ 1` and
+    * step, absolute `&(=k)`: the target index `i` is a position of the section's content holding a step,
+      with exactly `k - 1` steps before it — the k-th step of the section (text paragraphs occupy positions
+      but are not counted);
+    * step, relative `&(~k)`: a step position with exactly `k - 1` steps after it — the k-th step counted
+      back from the step being written;
+    * section, absolute: index `k - 1`, which is `< n`; section, relative: index `n - k`, with `k ≤ n` — the
+      k-th finished section from the start resp. counted back from the current one.
+    So the stored index is the position the printer intended, not merely "some earlier step"
+    (`C06_step_reference_target`). -/
+theorem C01_intermediate_target_spec (content : List Content) (n : Nat) (d : InterData) (rel : IngredientRelation)
+    (h : interRefTarget content n d = .ok rel) :
+    1 ≤ d.val.toNat ∧
+    ((d.isSection = false ∧ d.relative = false ∧ ∃ i st, rel = ⟨.reference i, some .step⟩ ∧
+        content[i]? = some (.step st) ∧ ((content.take i).filter Content.isStep).length = d.val.toNat - 1) ∨
+     (d.isSection = false ∧ d.relative = true ∧ ∃ i st, rel = ⟨.reference i, some .step⟩ ∧
+        content[i]? = some (.step st) ∧ ((content.drop (i + 1)).filter Content.isStep).length = d.val.toNat - 1) ∨
+     (d.isSection = true ∧ d.relative = false ∧ rel = ⟨.reference (d.val.toNat - 1), some .section⟩ ∧
+        d.val.toNat - 1 < n) ∨
+     (d.isSection = true ∧ d.relative = true ∧ rel = ⟨.reference (n - d.val.toNat), some .section⟩ ∧
+        d.val.toNat ≤ n)) :=
+  irs_interRefTarget_spec content n d rel h
+
+/-- the `intermediate_data` branch of `ingredient` stores exactly that relation, computed against the
+    current section and the finished sections of the collector at the moment of the event (or leaves the
+    ingredient as written when the reference does not resolve, with an error).  Partial: the link from
+    the printed document to "the content of the current section at that moment" (the steps printed before
+    in the same section) is given only for documents without references (`C01_recipe_doc`). -/
+theorem C01_intermediate_ref_value_partial {α : Type} [Arith α] (i : PIngredient α)
+    (igr : Ingredient (ScalableValue α)) (d : Loc InterData) (s : Col α) :
+    (ingrInter i igr d s).1 = igr ∨
+    ∃ rel, interRefTarget s.cur.content s.sections.length d.val = .ok rel ∧
+      (ingrInter i igr d s).1 = { igr with relation := rel } :=
+  ingrInter_val i igr d s
+
+/-! examples: content `step, text, step`; `&(~1)` is position 2 (the last step), `&(=1)` position 0, `&(~2)`
+    position 0 (the text paragraph in between is skipped), `&(=3)` does not exist -/
+example : interRefTarget [.step ⟨[.text ['a']], 1⟩, .text ['x'], .step ⟨[.text ['b']], 2⟩] 0 ⟨true, false, 2⟩ =
+    .ok ⟨.reference 0, some .step⟩ := by rfl
+example : interRefTarget [.step ⟨[.text ['a']], 1⟩, .text ['x'], .step ⟨[.text ['b']], 2⟩] 0 ⟨false, false, 2⟩ =
+    .ok ⟨.reference 2, some .step⟩ := by rfl
+example : interRefTarget [.step ⟨[.text ['a']], 1⟩, .text ['x'], .step ⟨[.text ['b']], 2⟩] 0 ⟨false, false, 3⟩ =
+    .error "inter-ref-bounds" := by rfl
+
+/-! ### documents with ingredient references through the analysis pass -/
+
+/-- Analysis layer for documents in which an ingredient may also be a correctly written reference.
+    `blocks` as in `C01_analysis_doc`; an ingredient item is either a plain definition (`IngrSimple`) or
+    satisfies `IngrRefOK` RELATIVE TO THE TABLE OF THE INGREDIENTS WRITTEN BEFORE IT (`blocksOK`, which
+    threads `ingrTable` through the document): it carries `&` and not `+`, no intermediate data, its name has
+    an earlier non-REF definition — the last one, at `t` — which is a definition; it has no modifier that
+    definition lacks, no note, and its amount agrees with the definition's in being text or not
+    (ADVANCED_UNITS off for references).  Then `parse_events` returns
+    * `ingredients = ingrTable env (all ingredient events in order)`: the PURE table function that appends
+      a definition as written (`ingrOf`) and, for a reference, appends `asReference …` (relation = reference
+      to `t`, target kind ingredient, modifiers = written ∪ inherited ∪ REF) after rewriting the
+      definition at `t` to list the new index at the end of `referenced_from` (`ingrPush`); without
+      references it is the list of the written definitions (`C01_ingr_table_without_references`);
+    * sections, step numbers, item indices, cookware, timers, metadata map exactly as in `C01_analysis_doc`
+      (a reference occupies its own table index, so item indices still count the ingredient events before);
+    * the same diagnostics: only the `>>` deprecation notice, if any. -/
+theorem C01_analysis_doc_refs {α : Type} [Arith α] (env : Env) (input : Str)
+    (blocks : List (SBlock α)) (hok : blocksOK env [] blocks) :
+    ∃ c : Col α, parseEvents env input (blocks.flatMap SBlock.events) = ⟨some c, c.diags, none⟩ ∧
+      c.sections = docSecs env [] ⟨none, []⟩ 1 blocks ∧
+      c.ingredients = ingrTable env (ingrsOf (docStepItems blocks)) ∧
+      c.cookware.toList = (cwsOf (docStepItems blocks)).map (cwOf env) ∧
+      c.timers.toList = (timersOf (docStepItems blocks)).map (timerOf env) ∧
+      c.metaMap = docMeta env [] (docEntries blocks) ∧
+      c.diags = deprecation (docSpans (docEntries blocks)) ∧
+      c.inlineQ = #[] ∧ c.frontMatter = none :=
+  rtsr_parseEvents_doc env input blocks hok
+
+/-! example: a text paragraph between two steps keeps its place in the section and is not numbered -/
+example : docSecs (α := Rat) C01_toyEnv [] ⟨none, []⟩ 1
+    [.step [.text (C01_txt "a" 0)], .para [C01_txt "Note: " 3, C01_txt "rest." 9], .step [.text (C01_txt "b" 16)]] =
+    [⟨none, [.step ⟨[.text ['a']], 1⟩, .text "Note: rest.".toList, .step ⟨[.text ['b']], 2⟩]⟩] := by
+  simp [docSecs, paraContent, itemsFrom, SItem.toItem, C01_txt, Text.text, Section.isEmpty]
+
+/-- without `&` the table function is the list of the written definitions -/
+theorem C01_ingr_table_without_references {α : Type} [Arith α] (env : Env) (l : List (Loc (PIngredient α)))
+    (h : ∀ li ∈ l, li.val.modifiers.val.contains Modifiers.REF = false) :
+    ingrTable env l = (l.map (ingrOf env)).toArray :=
+  rtsr_ingrTable_simple env l h
+
+/-! example: step `@salt{=1%tsp}`, a section line, step `@&salt`: the reference in the second section
+    resolves to the definition in the first; the conditions hold; the table in closed form -/
+def C01_exRefBlocks : List (SBlock Rat) :=
+  [.step [.ingredient C01_exSalt1], .sect (some (C01_txt "Later" 30)), .step [.ingredient C01_exSaltRef]]
+example : ingrTable C01_toyEnv (ingrsOf (docStepItems C01_exRefBlocks)) =
+    #[backlinked (ingrOf C01_toyEnv C01_exSalt1) [] 1 true none,
+      asReference (ingrOf C01_toyEnv C01_exSaltRef) (ingrOf C01_toyEnv C01_exSalt1).modifiers 0] := by rfl
+example : blocksOK C01_toyEnv [] C01_exRefBlocks := by
+  have h1 : IngrSimple C01_exSalt1 := ⟨rfl, by decide, by intro q hq; cases hq; intro _; exact ⟨rfl, rfl⟩⟩
+  refine ⟨⟨Or.inl h1, trivial⟩, by simp, ⟨⟨Or.inr ?_, trivial⟩, by simp, trivial⟩⟩
+  refine ⟨rfl, (fun q hq => by cases hq), (by decide), (by decide),
+    ⟨0, ingrOf C01_toyEnv C01_exSalt1, [], true, none, (by decide), rfl, rfl, (by decide),
+     ⟨(by decide), rfl, (by decide), (fun rq dq h => by cases h)⟩⟩⟩
+example : docSecs C01_toyEnv [] ⟨none, []⟩ 1 C01_exRefBlocks =
+    [⟨none, [.step ⟨[.ingredient 0], 1⟩]⟩, ⟨some "Later".toList, [.step ⟨[.ingredient 1], 1⟩]⟩] := by
+  simp [docSecs, C01_exRefBlocks, itemsFrom, SItem.toItem, ingrsOf, SItem.ingr?, Section.isEmpty, C01_txt, Text.trimmed,
+    Text.outerTrimmed, Text.text, trim, trimStart, trimEnd, hasDoubleSpace, C01_toyEnv, toyCharSpec]
+
+/-- the cookware counterpart of `C01_reference_event_partial`: a correctly written `#&name` (REF, not NEW;
+    the last earlier non-REF cookware item of that name is the definition at `t`; no modifier the
+    definition lacks — HIDDEN and OPT are inherited; no note; amounts agree in being text or not) appends
+    `cwAsReference …` (relation = reference to `t`, modifiers = written ∪ inherited ∪ REF), rewrites the
+    definition to list the new index at the end of `referenced_from`, appends the item to the open step,
+    and reports nothing.  Partial as the ingredient version: default modes only. -/
+theorem C01_cookware_reference_event_partial {α : Type} [Arith α] (env : Env) (input : Str) (lc : Loc (PCookware α))
+    (s : Col α) (items : List Item) (t : Nat) (defn : Cookware (ScalableValue α)) (defLoc : Loc (PCookware α))
+    (rf : List Nat) (b : Bool)
+    (hd : s.defineMode = .all) (hdup : s.duplicateMode = .new) (hb : s.block = some (.step items))
+    (hlock : ∀ q, lc.val.quantity = some q → lockOK q.val false)
+    (hREF : lc.val.modifiers.val.contains Modifiers.REF = true)
+    (hNEW : lc.val.modifiers.val.contains Modifiers.NEW = false)
+    (hfound : sameNameIdx env (s.cookware.toList.map (fun x => (x.name, x.modifiers))) (cwOf env lc).name = some t)
+    (hdefn : s.cookware[t]? = some defn) (hloc : s.locCw[t]? = some defLoc)
+    (hrel : defn.relation = .definition rf b)
+    (hconf : refConflict lc.val.modifiers.val ⟨defn.modifiers.bits &&& (Modifiers.HIDDEN ||| Modifiers.OPT)⟩ = 0)
+    (hq : CwRefChecksQuiet lc (cwOf env lc).quantity defn b) :
+    (processEvent env input (.cookware lc) s).2 =
+      { s with
+        locCw := s.locCw.push lc,
+        cookware := (s.cookware.setIfInBounds t (cwBacklinked defn rf s.cookware.size b)).push
+          (cwAsReference (cwOf env lc) defn.modifiers t),
+        block := some (.step (items ++ [.cookware s.cookware.size])) } :=
+  rtf_proc_cookware_ref env input lc s items t defn defLoc rf b hd hdup hb hlock hREF hNEW hfound hdefn hloc hrel hconf hq
+
+/-! example: `#pot{}` … `#&pot`: the fold returns the reference with the back-link and no diagnostic -/
+def C01_exPotRef : Loc (PCookware Rat) := ⟨⟨⟨⟨Modifiers.REF⟩, ⟨41, 42⟩⟩, C01_txt "pot" 42, none, none, none⟩, ⟨40, 45⟩⟩
+example : (parseEvents C01_toyEnv [] [.start .step, .cookware C01_exPot1, .cookware C01_exPotRef, .stop .step]).output.map
+      (fun c => (c.cookware.toList.map (·.relation), c.sections, c.diags.toList)) =
+    some ([.definition [1] true, .reference 0], [⟨none, [.step ⟨[.cookware 0, .cookware 1], 1⟩]⟩], []) := by rfl
+example : CwRefChecksQuiet C01_exPotRef (cwOf C01_toyEnv C01_exPotRef).quantity (cwOf C01_toyEnv C01_exPot1) true :=
+  ⟨rfl, by decide, fun rq dq h => by cases h⟩
 
 end Cook
